@@ -82,6 +82,7 @@ class G:
         self.known_small = {}
         self.call_depth = 0
         self.protected = set()
+        self.str_lits_only = False
 
     def fault(self):
         """inject a fault here? (at most `faults` per program)"""
@@ -149,6 +150,8 @@ class G:
         r = self.r
         choices = []
         vs = self.vars_of(ty)
+        if ty == "STRING" and self.str_lits_only:
+            return self.lit(ty)
         if vs: choices += ["var"] * 3
         if self.has_lit(ty): choices += ["lit"] * 2
         elems = [(n, a) for n, a in self.env.all_arrays().items() if a[0] == ty]
@@ -495,7 +498,12 @@ class G:
                 self.set_ptrs = self.set_ptrs - {tgt[0]}
             return
         else:
-            e = self.expr(ty)
+            # a string assigned inside a loop or routine must not be built from string variables (exponential growth)
+            self.str_lits_only = (ty in ("STRING", "CHAR")) and (self.loop_depth > 0 or self.env is not self.genv)
+            try:
+                e = self.expr(ty)
+            finally:
+                self.str_lits_only = False
         if e is None: return
         self.emitl(tgt + ["<-"] + e)
         if tgt[0] in getattr(self, "known_small", {}) and len(tgt) == 1:
